@@ -109,6 +109,13 @@ def cases(tier):
                 if with_fixed:
                     regs.insert(1, [2 * n, 2 * n + 1, 'middle', 'fixed'])
                 cs.append(dict(kind='valid', nb=2 * n + 2, gaps=[1.0, 2.0, 0.5, 1.5] * ((2 * n + 5) // 4), transposed=(n + with_fixed) % 2, regions=regs))
+    # the attached netlist has terminals (modules without any geometry), alone or next to a fixed module, and the tolerances are the
+    # design's own (undefined before the load): concrete geometry
+    for regs in ([], [[0, 1, 'lower', 'dsp']], [[0, 1, 'lower', 'dsp'], [2, 3, 'full', '#']], [[1, 2, 'middle', 'fixed'], [3, 4, 'upper', 'bram']]):
+        for tr in (0, 1):
+            cs.append(dict(kind='valid', nb=4, gaps=[1.0, 2.0, 0.5, 1.5], transposed=tr, regions=regs, own_eps=True, netlist='terminals'))
+    cs.append(dict(kind='overlap', nb=4, gaps=[1.0, 2.0, 0.5, 1.5], transposed=0, own_eps=True, netlist='terminals',
+                   regions=[[0, 2, 'lower', 'dsp'], [1, 3, 'full', '#']]))
     # one region sticking out of the die
     for band in ('full', 'lower'):
         for kind in KINDS:
@@ -209,6 +216,8 @@ def body(I, case):
         return body_decimal_netlist(I, case)
     nb = case['nb']
     tr = case['transposed']
+    if case.get('own_eps'):
+        Rectangle.undefine_epsilon()   # no tolerance inherited: the design defines its own
     b = [0.0]
     for k in range(nb):
         b.append(b[-1] + (I.real(f'g{k}', DELTA, 250) if 'gaps' not in case else case['gaps'][k]))
@@ -235,9 +244,12 @@ def body(I, case):
     if regions:
         tree['regions'] = regions
     netlist = None
-    if fixed_rects:
+    if fixed_rects or case.get('netlist'):
         mods = {f'F{n}': {'fixed': True, 'rectangles': [r]} for n, r in enumerate(fixed_rects)}
-        netlist = Netlist({'Modules': mods})
+        if case.get('netlist') == 'terminals':
+            mods['T1'] = {'terminal': True}
+            mods['T2'] = {'terminal': True, 'fixed': True, 'center': [0.5, 0.5]}
+        netlist = Netlist({'Modules': mods, 'Nets': [['T1', 'T2']]} if case.get('netlist') else {'Modules': mods})
     DW, DH = tree['width'], tree['height']
     try:
         die = Die(tree, netlist)
